@@ -85,12 +85,11 @@ CONTRACTS = {
         'closure_vars': {'k': 'int', 'op': 'str', 'negop': 'str', 'C': 'int'},
         'ghost_params': {'a': 'asg'},
         'requires': ['lit != 0', 'k >= 1',
-                     "op == '>=' or op == '<=' or op == '<' or op == '>' or op == '=='",
-                     "negop == '>=' or negop == '<=' or negop == '<' or negop == '>' or negop == '=='"],
+                     "op == '>=' or op == '<=' or op == '<' or op == '>' or op == '==' or op == '!='",
+                     "negop == '>=' or negop == '<=' or negop == '<' or negop == '>' or negop == '==' or negop == '!='"],
         'raises': {},
-        'ensures': ['sat(a, asclauses(result)) == cmp_op(ite(lit > 0, op, negop), count(a, {}), C)'.format(BLOCK),
+        'ensures': ["sat(a, asclauses(result)) == ite(ite(lit > 0, op, negop) == '!=', count(a, {B}) != C, cmp_op(ite(lit > 0, op, negop), count(a, {B}), C))".format(B=BLOCK),
                     'cmaxabs(asclauses(result)) <= abs(lit) * k', 'not chaszero(asclauses(result))'],
-        'note': "op/negop '!=' (anything-but-k) is outside the proved subset (add_linear '!=' branch); bounded tier covers it",
     },
     # if-then-else: x_v ? x_{N+v} : x_{2N+v}
     (S, 'IfThenElseSubstitution.ite'): {
@@ -147,6 +146,62 @@ CONTRACTS = {
     (S, 'XorSubstitution'): wrapper('xorify', 'count(a, {B}) % 2 == 1'),
     (S, 'MajoritySubstitution'): wrapper('majorify', '2 * count(a, {B}) >= k'),
     (S, 'OrSubstitution'): wrapper('orify', 'count(a, {B}) >= 1'),
+    # threshold substitutions x -> (x_1 + ... + x_k  op  C); the complementary operator for negative literals is computed by
+    # the function itself (table lookup) - part of what is proved here
+    (S, 'LinearSubstitution'): wrapper(
+        'linear', "ite(op == '!=', count(a, {B}) != C, cmp_op(op, count(a, {B}), C))",
+        params={'F': 'obj:CNF', 'k': 'int', 'op': 'str', 'C': 'int'},
+        raises={'ValueError': "k < 1 or not (op == '==' or op == '<' or op == '>' or op == '<=' or op == '>=' or op == '!=')"}),
+    ('cnfgen/localtypes.py', 'one_of_values'): {'inline_always': True},
+    ('cnfgen/localtypes.py', 'any_int'): {'inline_always': True},
+    # polarity flip: same variables, every literal negated
+    (S, 'FlipPolarity.subst'): {
+        'property': ['C05', 'C10'], 'params': {'lit': 'int'}, 'closure_vars': {}, 'ghost_params': {'a': 'asg'},
+        'requires': ['lit != 0'], 'raises': {},
+        'ensures': ['sat(a, asclauses(result)) == ((not lit_true(a, abs(lit))) == (lit > 0))',
+                    'cmaxabs(asclauses(result)) <= abs(lit)', 'not chaszero(asclauses(result))'],
+    },
+    (S, 'FlipPolarity'): wrapper('subst', 'not lit_true(a, v)', numvar='F._numvar', raises={}, params={'F': 'obj:CNF'}, loops={}),
+    # variable compression: original variable v becomes the xor / majority of the right neighbours of v in B
+    (S, 'VariableCompression'): {
+        'property': ['C05', 'C10', 'C19'],
+        'params': {'F': 'obj:CNF', 'B': 'obj:BipartiteGraph', 'function': 'str'},
+        'ghost_params': {'a': 'asg'},
+        'requires': FWF,
+        'raises': {'ValueError': "not (function == 'xor' or function == 'maj') or B.lorder != F._numvar"},
+        'ensures': [
+            "implies(function == 'xor', sat(a, result._clauses) == sat(aind(a, gadid('applyxor')), F._clauses))",
+            "implies(function == 'xor', forall(lambda v: implies(1 <= v and v <= F._numvar, "
+            "lit_true(aind(a, gadid('applyxor')), v) == (count(a, rnbrs(B.gid, v)) % 2 == 1))))",
+            "implies(function == 'maj', sat(a, result._clauses) == sat(aind(a, gadid('applymaj')), F._clauses))",
+            "implies(function == 'maj', forall(lambda v: implies(1 <= v and v <= F._numvar, "
+            "lit_true(aind(a, gadid('applymaj')), v) == (2 * count(a, rnbrs(B.gid, v)) >= ilen(rnbrs(B.gid, v))))))",
+            'result._numvar == B.rorder',
+            'cmaxabs(result._clauses) <= result._numvar', 'not chaszero(result._clauses)',
+            'F._clauses == old(F._clauses)', 'F._numvar == old(F._numvar)',
+        ],
+    },
+    ('cnfgen/graphs.py', 'BipartiteGraph.normalize'): {
+        'assumed': 'BipartiteGraph.normalize returns a cnfgen BipartiteGraph unchanged', 'classmethod': True,
+        'params': {'cls': 'any', 'G': 'obj:BipartiteGraph', 'varname': 'any'}, 'returns_expr': 'G'},
+    ('cnfgen/graphs.py', 'BipartiteGraph.left_order'): {'assumed': 'size view of the bipartite graph (C16)', 'params': {}, 'returns_expr': 'self.lorder'},
+    ('cnfgen/graphs.py', 'BipartiteGraph.right_order'): {'assumed': 'size view of the bipartite graph (C16)', 'params': {}, 'returns_expr': 'self.rorder'},
+    ('cnfgen/formula/basecnf.py', 'BaseCNF.update_variable_number'): {'inline_always': True},
+    # if-then-else: 3 variables per original variable (x_v ? x_{N+v} : x_{2N+v})
+    (S, 'IfThenElseSubstitution'): wrapper(
+        'ite', 'ite(lit_true(a, v), lit_true(a, F._numvar + v), lit_true(a, 2 * F._numvar + v))',
+        numvar='3 * F._numvar', raises={}, params={'F': 'obj:CNF'},
+        loops={0: {'inv': ['newF._numvar == _it', 'newF._clauses == cnil', 'N == F._numvar'],
+                   'modifies_objects': ['newF'], 'modifies_fields': {'newF': ['_numvar']}},
+               1: {'inv': ['newF._numvar == N + _it', 'newF._clauses == cnil', 'N == F._numvar'],
+                   'modifies_objects': ['newF'], 'modifies_fields': {'newF': ['_numvar']}},
+               2: {'inv': ['newF._numvar == 2 * N + _it', 'newF._clauses == cnil', 'N == F._numvar'],
+                   'modifies_objects': ['newF'], 'modifies_fields': {'newF': ['_numvar']}}}),
+    ('cnfgen/formula/variables.py', 'VariablesManager.new_variable'): {
+        'assumed': 'group allocation (C11): one fresh variable, no clause',
+        'params': {'label': 'any'}, 'modifies': ['self._numvar'], 'returns': 'int',
+        'ensures': ['self._numvar == old(self._numvar) + 1', 'result == self._numvar'],
+    },
     # C05 layer 2: the generator that distributes the gadget CNFs over every clause.  `subst` is an arbitrary pure function
     # literal -> CNF (gad(subst, l)); the clauses yielded are, clause by clause and in order, the distribution
     # (cartesian product, flattened) of [gad(l) for l in clause] - hence (Lean L8/L9, instantiated in the VC) they hold
